@@ -19,6 +19,7 @@ Act(e) == CASE e.act = "k2e_file" -> K2EFile(e.p, e.out, OUTE)
             [] e.act = "e2k_dir"  -> E2KDir(e.p[1], e.rec)
             [] e.act = "dump"     -> Dump(e.p)
             [] e.act = "dump_opts" -> DumpOpts(e.p)
+            [] e.act = "dump_empty" -> DumpEmpty(e.p)
 TInitEv == /\ l = 1 /\ Ev.ev = "init" /\ l' = 2 /\ UNCHANGED <<tid, fails>>
            /\ fs' = FsOf(Ev.snap) /\ last' = NoAct
 TAct == /\ l > 1 /\ l <= Len(Log[tid]) /\ Ev.ev = "act" /\ l' = l + 1 /\ UNCHANGED tid
@@ -28,8 +29,11 @@ TAct == /\ l > 1 /\ l <= Len(Log[tid]) /\ Ev.ev = "act" /\ l' = l + 1 /\ UNCHANG
                    <<"cli.only_targets_change", \A p \in Paths : FsOf(Ev.snap)[p] # fs[p] => p \in last'.targets>> >>)
 TLoad == /\ l > 1 /\ l <= Len(Log[tid]) /\ Ev.ev = "load" /\ l' = l + 1 /\ UNCHANGED <<tid, fs, last>>
          /\ Note(<< <<"load.equals_loads_of_the_text", Ev.same>> >>)
+\* the converter's ekern output converted to kern and back to ekern is the original ekern (evaluated on real outputs by the harness)
+TRound == /\ l > 1 /\ l <= Len(Log[tid]) /\ Ev.ev = "roundtrip" /\ l' = l + 1 /\ UNCHANGED <<tid, fs, last>>
+          /\ Note(<< <<"cli.ekern_to_kern_and_back_is_the_original_ekern", Ev.same>>, <<"cli.kern_from_ekern_is_kern", Ev.iskern>> >>)
 Init == tid \in 1..Len(Log) /\ l = 1 /\ fails = <<>> /\ fs = [p \in Paths |-> ABSENT] /\ last = NoAct
-Spec == Init /\ [][TInitEv \/ TAct \/ TLoad]_tvars
+Spec == Init /\ [][TInitEv \/ TAct \/ TLoad \/ TRound]_tvars
 Mark == TLCSet(1, [TLCGet(1) EXCEPT ![tid] = IF @.l < l THEN [l |-> l, fails |-> fails] ELSE @])
 Verdict == PrintT("VERDICT" \o ToJson([r |-> TLCGet(1)]))
 ASSUME TLCSet(1, [t \in 1..Len(Log) |-> [l |-> 0, fails |-> <<>>]])
